@@ -51,7 +51,7 @@ Proof.
       assert (GG : GInv (grant_core s1 k r) (g <| g_cl := (g_cl g + 1)%Z |>)).
       { apply (grant_core_ginv s1 g k r l0 m1 G1); unfold g, gk; gs; auto. lia. }
       unfold grant_core in GG. cbv zeta in GG.
-      destruct (has_data_flag c); rewrite ?(process_data_core _ _ _ _ _ C4); rewrite C3;
+      destruct (has_data_flag c); rewrite ?(process_data_core _ _ _ _ _ C4); cbv iota beta; rewrite C3;
         destruct (add_expried _ k r) as [s4 aev]; cbn [fst] in GG; (split; [|exact Hwk]); cbn [fst];
         (eapply ginv_geq; [apply (updc_ginv _ _ _ 0%Z 0%Z GG); unfold g, gk; gs; cbn; lia|reflexivity]).
     + (* Expried = 0: no hold, the record is freed at once *)
@@ -62,9 +62,9 @@ Proof.
         assert (Hto : liveb l2 = 0%Z) by (rewrite Hl2; reflexivity).
         pose proof (free_lock_ginv s2 g r l2 G2 Hr2 Hrefc eq_refl) as G3. rewrite Hto in G3.
         split; [|intros w H; discriminate]. cbn [fst].
-        eapply ginv_geq; [apply (updc_ginv _ _ _ 0%Z 0%Z); [apply remove_mgr_ginv; [exact G3|intros _; split; reflexivity]|..]; unfold g, gk; gs; cbn; lia|reflexivity]. }
+        eapply ginv_geq; [eapply updc_ginv with (cl' := 0%Z) (cw' := 0%Z); [apply remove_mgr_ginv; [exact G3|intros _; split; reflexivity]|..]; unfold g, gk; gs; cbn; lia|reflexivity]. }
       destruct (has_data_flag c).
-      * rewrite (process_data_core _ _ _ _ _ C4).
+      * rewrite (process_data_core _ _ _ _ _ C4). cbv iota beta.
         destruct (_ && _).
         -- destruct (push_lock_aof_ok s1 g k r 0 G1) as [G2 S2]. destruct (push_lock_aof s1 k r 0) as [s2 aev]. cbn [fst] in *.
            destruct (Hfree s2 G2 S2) as [X _]. split; [exact X|exact Hwk].
@@ -83,14 +83,174 @@ Proof.
       assert (G4 : GInv (add_timeout s2 r) (g <| g_owe := [r] |> <| g_cw := 1%Z |>)).
       { eapply ginv_geq; [eapply (add_timeout_ginv s2 _ r _ l2 G3); unfold g, gk; gs; auto; try reflexivity|].
         - change (l_key l2) with k. rewrite Whold, (getm_some _ _ _ Hm1). exact Hh0.
-        - unfold ecount in *. gs. exact He2.
-        - change (l_key l2) with k. exact Win.
         - reflexivity. }
       destruct (aget (store (add_timeout s2 r)) r) as [l3|] eqn:Hr3; [|apply add_timeout_stored in Hr3; congruence].
       split; [|intros w H; discriminate]. cbn [fst].
-      eapply ginv_geq; [apply (updc_ginv _ _ _ 0%Z 0%Z); [apply (updl_refc_owe _ _ r [] l3 G4); gs; auto|..]; unfold g, gk; gs; cbn; lia|reflexivity].
+      eapply ginv_geq; [eapply updc_ginv with (cl' := 0%Z) (cw' := 0%Z); [apply (updl_refc_owe _ _ r [] l3 G4); gs; auto|..]; unfold g, gk; gs; cbn; lia|reflexivity].
     + (* refused at once *)
       pose proof (free_lock_ginv s1 g r l0 G1 Hr1 eq_refl eq_refl) as G3.
       split; [|intros w H; discriminate]. cbn [fst].
       eapply ginv_geq; [apply remove_mgr_ginv; [exact G3|intros _; split; reflexivity]|reflexivity].
+Qed.
+
+(* ---------------------------------------------------------------- the key is held: show / update / re-entrant branches *)
+Lemma mlocked_bound s xt xe k m : GInv s (gk xt xe k) -> aget (mgrs s) k = Some m -> next s < MAXREC ->
+  m_locked m + 1 < 4294967296.
+Proof.
+  intros G Hm Hb. destruct (gi_mgr _ _ G k m Hm) as [B1 B2 B3 B4 B5 B6 B7 B8 B9 Bb B10 Bc].
+  assert (Hd : forall r, l_locked (getl s r) <= 255).
+  { intros r. destruct (aget (store s) r) as [l|] eqn:Hr.
+    - rewrite (getl_some _ _ _ Hr). apply (ro_depth _ _ _ _ (gi_rec _ _ G r l Hr)).
+    - rewrite (getl_none _ _ Hr). simpl. lia. }
+  pose proof (sumdepth_bound s (holders m) Hd) as S1.
+  assert (S2 : (length (holders m) <= length (store s))%nat).
+  { apply nodup_stored_length; [apply (gi_wf_s _ _ G)|exact B4|].
+    intros r Hi. apply B1. unfold phk, gk. gs. destruct (k =? k); simpl; rewrite occ_app; apply occ_In in Hi; lia. }
+  pose proof (gi_len _ _ G) as S3. unfold dlk, gk in B6. gs. destruct (k =? k) in B6; unfold MAXREC in Hb; lia.
+Qed.
+
+Lemma cmd_core_lockid c x : cmd_core c -> cmd_core (c <| c_lockid := x |>).
+Proof. unfold cmd_core. destruct c; cbn. auto. Qed.
+
+Lemma ls_update_ok s xt xe conn c1 k m r l ldata :
+  GInv s (gk xt xe k) -> aget (mgrs s) k = Some m -> cmd_core c1 ->
+  aget (store s) r = Some l -> l_key l = k -> 0 < l_locked l -> c_lockid (l_cmd l) = c_lockid c1 ->
+  l_timeouted l = true -> occ r (holders m) = 1%nat ->
+  exists res, ls_update s conn c1 k m r l ldata = (Some res, c1, m_waited m) /\ res_ok xt xe k res.
+Proof.
+  intros G Hm Hc1 Hr Hkey Hd Hid Ht Hh. set (g := gk xt xe k) in *.
+  pose proof Hc1 as [C1 [C2 [C3 C4]]].
+  assert (Hupd : forall s2 aev, GInv s2 g ->
+     exists res,
+       (let s2 := updl s2 r (fun l => l <| l_conn := conn |>) in
+        let from_aof := has (c_flag c1) LOCK_FLAG_FROM_AOF in
+        if negb from_aof && has (c_tflag c1) TF_REQUIRE_ACKED && negb (l_aoftime (getl s2 r) =? 255) then
+          let '(s3, e3) := push_lock_aof s2 k r AOF_FLAG_UPDATED in
+          let s3 := updl s3 r (fun l => l <| l_refc := add8 (l_refc l) 1 |>) in
+          (Some (s3, @nil event ++ aev ++ e3, None), c1, m_waited m)
+        else
+          let '(s3, e3) := if negb from_aof && l_isaof (getl s2 r) then push_lock_aof s2 k r AOF_FLAG_UPDATED else (s2, []) in
+          (Some (s3, [] ++ aev ++ e3 ++ [reply conn c1 R_LOCKED_ERROR (m_locked (getm s3 k)) (l_locked (getl s3 r)) ldata],
+                 Some (mkWake k (Some conn))), c1, m_waited m)) = (Some res, c1, m_waited m) /\ res_ok xt xe k res).
+  { intros s2 aev G2. cbv zeta. rewrite C1, andb_false_r. cbn [andb].
+    assert (G3 : GInv (updl s2 r (fun l => l <| l_conn := conn |>)) g).
+    { apply updl_irrel; auto. intros l0 _. split; [unfold same_rel; destruct l0; cbn; intuition|destruct l0; cbn; auto]. }
+    destruct (negb (has (c_flag c1) LOCK_FLAG_FROM_AOF) && l_isaof (getl (updl s2 r (fun l => l <| l_conn := conn |>)) r)).
+    - destruct (push_lock_aof_ok _ g k r AOF_FLAG_UPDATED G3) as [G4 _].
+      destruct (push_lock_aof _ k r AOF_FLAG_UPDATED) as [s3 e3]. eexists. split; [reflexivity|].
+      split; [exact G4|intros w0 H; inversion H; reflexivity].
+    - eexists. split; [reflexivity|]. split; [exact G3|intros w0 H; inversion H; reflexivity]. }
+  pose proof (update_and_rearm_ginv s xt xe k 0%Z 0%Z r c1 l m G Hr Hkey Hm Hd Ht Hh Hc1 (eq_sym Hid)) as GU.
+  unfold ls_update.
+  destruct (has_data_flag c1); rewrite ?(process_data_core _ _ _ _ _ C4); cbv iota beta;
+    match goal with |- context [if ?b then (Some (s, _, None), c1, m_waited m) else _] => destruct b end;
+    try (eexists; split; [reflexivity|apply res_ok_same; auto]).
+  all: destruct (update_and_rearm s k r c1) as [s2 aev]; cbn [fst] in GU; apply (Hupd s2 aev GU).
+Qed.
+
+Lemma ls_relock_ok s xt xe conn c1 k m r l ldata :
+  GInv s (gk xt xe k) -> aget (mgrs s) k = Some m -> cmd_core c1 -> next s < MAXREC ->
+  aget (store s) r = Some l -> l_key l = k -> 0 < l_locked l -> c_lockid (l_cmd l) = c_lockid c1 ->
+  l_timeouted l = true -> occ r (holders m) = 1%nat -> l_locked l < 255 ->
+  exists res, ls_relock s conn c1 k m r l ldata = (Some res, c1, m_waited m) /\ res_ok xt xe k res.
+Proof.
+  intros G Hm Hc1 Hb Hr Hkey Hd Hid Ht Hh Hlt. set (g := gk xt xe k) in *.
+  pose proof Hc1 as [C1 [C2 [C3 C4]]].
+  unfold ls_relock. destruct (c_expried c1 =? 0).
+  { eexists. split; [reflexivity|apply res_ok_same; auto]. }
+  cbv zeta.
+  pose proof (mlocked_bound s xt xe k m G Hm Hb) as Hmb.
+  destruct (gi_rec _ _ G r l Hr) as [A1 A2 A3 A4 A5 A6 A7 A8 A9 A10 A11].
+  rewrite (updm_some _ _ _ _ Hm).
+  set (m1 := m <| m_locked := add32 (m_locked m) 1 |>).
+  assert (Hl1 : m_locked m1 = m_locked m + 1) by (unfold m1; cbn; apply add32_succ; auto).
+  assert (G1 : GInv (setm s k m1) (g <| g_dl := (-1)%Z |> <| g_cl := 1%Z |>)).
+  { eapply ginv_geq; [apply (setm_scalar s g k m m1 G Hm); try (destruct m; reflexivity); [lia|right; reflexivity]|].
+    rewrite Hl1. unfold g, gk. gs.
+    match goal with |- _ = ?g0 <| g_dl := ?e1 |> <| g_cl := ?e2 |> => replace e1 with (-1)%Z by lia; replace e2 with 1%Z by lia end. reflexivity. }
+  set (s1 := setm s k m1) in *.
+  assert (Hr1 : aget (store s1) r = Some l) by exact Hr.
+  assert (Hm1 : aget (mgrs s1) k = Some m1) by (unfold s1; rewrite mgrs_setm, aget_aset_same; auto).
+  assert (Hh1 : holders m1 = holders m) by (destruct m; reflexivity).
+  rewrite (updl_some _ _ _ _ Hr1).
+  set (l2 := l <| l_locked := add8 (l_locked l) 1 |>).
+  assert (Hd2 : l_locked l2 = l_locked l + 1) by (unfold l2; cbn; apply add8_succ; lia).
+  assert (G2 : GInv (setl s1 r l2) (gkc xt xe k 1 0)).
+  { eapply ginv_geq; [apply (setl_depth s1 _ r l l2 G1 Hr1); unfold g, gk; gs; auto; try lia|].
+    - intros _ _. rewrite Hkey. unfold s1. rewrite getm_setm_same, Hh1. exact Hh.
+    - simpl. tauto.
+    - rewrite Hkey. unfold s1 at 1. rewrite getm_setm_same, Hh1, Hh, Hd2. unfold g, gk, gkc. gs.
+      match goal with |- _ = ?g0 <| g_dl := ?e1 |> => replace e1 with 0%Z by lia end. reflexivity. }
+  set (s2 := setl s1 r l2) in *.
+  assert (Hr2 : aget (store s2) r = Some l2) by (unfold s2; rewrite store_setl, aget_aset_same; auto).
+  assert (Hm2 : aget (mgrs s2) k = Some m1) by exact Hm1.
+  assert (GU : GInv (fst (update_and_rearm s2 k r c1)) (gkc xt xe k 1 0)).
+  { apply (update_and_rearm_ginv s2 xt xe k 1%Z 0%Z r c1 l2 m1 G2 Hr2); auto; try lia. }
+  assert (Htail : forall s3 aev pev, GInv s3 (gkc xt xe k 1 0) ->
+    exists res,
+     (let s2 := updl s3 r (fun l => l <| l_conn := conn |>) in
+      let '(s3, e3) := if l_isaof (getl s2 r) then push_lock_aof s2 k r AOF_FLAG_UPDATED else (s2, []) in
+      let s3 := bump (fun n => n <| n_lock := (n_lock n + 1)%Z |> <| n_locked := (n_locked n + 1)%Z |>) s3 in
+      (Some (s3, [EGrant k r false (m_locked m) (cur_count s k) (c_count c1)] ++ pev ++ aev ++ e3
+                 ++ [reply conn c1 R_SUCCED (m_locked (getm s3 k)) (l_locked (getl s3 r)) ldata], Some (mkWake k (Some conn))), c1, m_waited m))
+     = (Some res, c1, m_waited m) /\ res_ok xt xe k res).
+  { intros s3 aev pev G3. cbv zeta.
+    assert (G4 : GInv (updl s3 r (fun l => l <| l_conn := conn |>)) (gkc xt xe k 1 0)).
+    { apply updl_irrel; auto. intros l0 _. split; [unfold same_rel; destruct l0; cbn; intuition|destruct l0; cbn; auto]. }
+    destruct (l_isaof (getl (updl s3 r (fun l => l <| l_conn := conn |>)) r)).
+    - destruct (push_lock_aof_ok _ _ k r AOF_FLAG_UPDATED G4) as [G5 _].
+      destruct (push_lock_aof _ k r AOF_FLAG_UPDATED) as [s4 e4]. eexists. split; [reflexivity|].
+      split; [|intros w0 H; inversion H; reflexivity]. cbn [fst] in *.
+      eapply ginv_geq; [eapply updc_ginv with (cl' := 0%Z) (cw' := 0%Z); [exact G5|..]; unfold gkc; gs; cbn; lia|reflexivity].
+    - eexists. split; [reflexivity|].
+      split; [|intros w0 H; inversion H; reflexivity]. cbn [fst] in *.
+      eapply ginv_geq; [eapply updc_ginv with (cl' := 0%Z) (cw' := 0%Z); [exact G4|..]; unfold gkc; gs; cbn; lia|reflexivity]. }
+  destruct (has_data_flag c1); rewrite ?(process_data_core _ _ _ _ _ C4); cbv iota beta;
+    destruct (update_and_rearm s2 k r c1) as [s3 aev]; cbn [fst] in GU; apply (Htail s3 aev [] GU).
+Qed.
+
+Lemma ls_held_ginv s xt xe conn c k m :
+  GInv s (gk xt xe k) -> aget (mgrs s) k = Some m -> cmd_core c -> next s < MAXREC ->
+  match ls_held s conn c k m with
+  | (Some res, _, _) => res_ok xt xe k res
+  | (None, c', _) => cmd_core c'
+  end.
+Proof.
+  intros G Hm Hc Hb. rewrite ls_held_eq.
+  destruct (0 <? m_locked m).
+  - cbv zeta.
+    set (curl := getl s match m_cur m with Some cr => cr | None => 0 end).
+    set (c1 := if has (c_flag c) LOCK_FLAG_SHOW then c <| c_lockid := c_lockid (l_cmd curl) |> else c).
+    assert (Hc1 : cmd_core c1) by (unfold c1; destruct (has (c_flag c) LOCK_FLAG_SHOW); [apply cmd_core_lockid|]; auto).
+    destruct (has (c_flag c) LOCK_FLAG_SHOW && negb (has (c_flag c) LOCK_FLAG_UPDATE)); [apply res_ok_same; auto|].
+    destruct (get_locked_lock s m (c_lockid c1)) as [r|] eqn:Eg; [|exact Hc1].
+    destruct (get_locked_lock_spec s xt xe k m _ r G Hm Eg) as [l [Hr [Hkey [Hd [Hid [Ht Hh]]]]]].
+    rewrite (getl_some _ _ _ Hr).
+    destruct (negb (l_ack l =? 255)); [apply res_ok_same; auto|].
+    destruct (has (c_flag c1) LOCK_FLAG_UPDATE).
+    + destruct (ls_update_ok s xt xe conn c1 k m r l (data_of s k) G Hm Hc1 Hr Hkey Hd Hid Ht Hh) as [res [E R]]. rewrite E. exact R.
+    + destruct ((l_locked l <? 255) && (l_locked l <=? c_rcount c1) && negb (has (c_tflag c1) TF_PRIORITY)) eqn:Erl; [|apply res_ok_same; auto].
+      apply andb_true_iff in Erl. destruct Erl as [Erl _]. apply andb_true_iff in Erl. destruct Erl as [Erl _]. apply N.ltb_lt in Erl.
+      destruct (ls_relock_ok s xt xe conn c1 k m r l (data_of s k) G Hm Hc1 Hb Hr Hkey Hd Hid Ht Hh Erl) as [res [E R]]. rewrite E. exact R.
+  - destruct (has (c_tflag c) TF_WAIT_WHEN_UNLOCK); [destruct (m_waited m && (c_count c =? 0))|]; auto. apply res_ok_same; auto.
+Qed.
+
+(* ---------------------------------------------------------------- LockDB.Lock *)
+Lemma lock_step_ginv s xt xe conn c :
+  GInv s (gk xt xe (c_key c)) -> cmd_core c -> next s < MAXREC ->
+  res_ok xt xe (c_key c) (lock_step s conn c).
+Proof.
+  intros G Hc Hb. rewrite lock_step_eq. cbv zeta. set (k := c_key c) in *.
+  destruct (ls_pre s conn c k); [apply res_ok_same; auto|].
+  assert (Hmgr : GInv (ls_mgr s k) (gk xt xe k) /\ next (ls_mgr s k) = next s /\ exists m, aget (mgrs (ls_mgr s k)) k = Some m).
+  { unfold ls_mgr. destruct (aget (mgrs s) k) as [m|] eqn:Hm; [eauto|].
+    split; [apply new_mgr_ginv; auto|]. split; [reflexivity|]. exists new_mgr. change (mgrs (bump _ (setm s k new_mgr))) with (aset (mgrs s) k new_mgr). apply aget_aset_same. }
+  destruct Hmgr as [G1 [N1 [m Hm]]]. set (s1 := ls_mgr s k) in *.
+  destruct (negb (leader s1) && negb (has (c_flag c) LOCK_FLAG_FROM_AOF)).
+  - split; [|intros w H; discriminate]. cbn [fst]. apply remove_mgr_ginv; [exact G1|intros _; split; reflexivity].
+  - rewrite (getm_some _ _ _ Hm).
+    assert (Hb1 : next s1 < MAXREC) by (rewrite N1; auto).
+    pose proof (ls_held_ginv s1 xt xe conn c k m G1 Hm Hc Hb1) as P.
+    destruct (ls_held s1 conn c k m) as [[[res|] c'] w]; [exact P|].
+    apply (ls_tail_ginv s1 xt xe conn c' k w m G1 P Hm Hb1).
 Qed.
